@@ -50,6 +50,11 @@ pub enum Route {
     /// target built by KeyInit from another key, then re-keyed with `clone_from` from a source that an
     /// inherent constructor built
     CloneFromSpecialSrc(usize),
+    /// built in the slot, moved into a `Box`, the box dropped: the storage dies with the drop; what the block
+    /// holds when the allocator gets it back is inspected (a wipe made of ordinary stores may be optimised away)
+    BoxedDrop,
+    /// a clone, boxed and dropped likewise
+    BoxedDropOfClone,
 }
 
 impl Route {
@@ -64,6 +69,8 @@ impl Route {
             Route::ConvSource => "source_of_from_ref",
             Route::Special(i) => special_ctors()[*i].1,
             Route::CloneFrom => "clone_from",
+            Route::BoxedDrop => "boxed_drop",
+            Route::BoxedDropOfClone => "boxed_drop_of_clone",
             Route::CloneFromOnto(i) => leak(format!("clone_from_onto:{}", special_ctors()[*i].1)),
             Route::CloneFromSpecialSrc(i) => leak(format!("clone_from_source:{}", special_ctors()[*i].1)),
         }
@@ -77,7 +84,7 @@ impl Route {
         if let Some(l) = s.strip_prefix("clone_from_source:") {
             return special(l).map(Route::CloneFromSpecialSrc);
         }
-        [Route::New, Route::NewFromSlice, Route::Clone, Route::ConvRef, Route::ConvVal, Route::CloneOfConv, Route::ConvSource, Route::CloneFrom]
+        [Route::New, Route::NewFromSlice, Route::Clone, Route::ConvRef, Route::ConvVal, Route::CloneOfConv, Route::ConvSource, Route::CloneFrom, Route::BoxedDrop, Route::BoxedDropOfClone]
             .into_iter()
             .find(|r| r.name() == s)
             .or_else(|| special(s).map(Route::Special))
@@ -370,10 +377,10 @@ impl<'a> Engine<'a> {
         let target_role = t.role;
         let (mut target, mut source): (u32, Option<u32>) = (1, None);
         match c.route {
-            Route::New | Route::NewFromSlice => {
+            Route::New | Route::NewFromSlice | Route::BoxedDrop => {
                 ops.push(Op::New { id: 1, task: 0, fam: f, role: target_role, key: c.key.clone(), fixed: c.route == Route::New });
             }
-            Route::Clone => {
+            Route::Clone | Route::BoxedDropOfClone => {
                 ops.push(Op::New { id: 2, task: 0, fam: f, role: target_role, key: c.key.clone(), fixed: false });
                 ops.push(Op::Clone { id: 1, task: 0, src: 2 });
                 source = Some(2);
@@ -491,6 +498,21 @@ impl<'a> Engine<'a> {
         let real = inst.reals.first().ok_or("no realisation")?.clone();
         let tt = &reg.types[real.ty];
         let p = w.slots.ptr(real.slot);
+        #[cfg(not(miri))]
+        if matches!(c.route, Route::BoxedDrop | Route::BoxedDropOfClone) {
+            crate::spy::arm(tt.size, tt.align);
+            let r = guard(|| unsafe { (tt.box_drop)(p) });
+            let snap = crate::spy::take();
+            // the slot now holds a moved-from copy: not a residue of any drop; clear it before it is reused
+            unsafe { core::ptr::write_bytes(p, 0, tt.size) };
+            w.slots.free(real.slot);
+            w.finish();
+            r?;
+            return match snap {
+                Some(bytes) => Ok((bytes, real.ty)),
+                None => Err("route not applicable: the boxed instance's block was not seen being freed".into()),
+            };
+        }
         guard(|| unsafe { (tt.drop)(p) })?;
         let residue = read_slot(p, tt.size);
         w.slots.free(real.slot);
@@ -549,6 +571,12 @@ fn routes_for(reg: &Registry, t: &TypeInfo) -> Vec<Route> {
     }
     if t.clone_from.is_some() {
         r.push(Route::CloneFrom);
+    }
+    if !cfg!(miri) && t.size > 0 && t.size <= 16384 {
+        r.push(Route::BoxedDrop);
+        if t.clone.is_some() {
+            r.push(Route::BoxedDropOfClone);
+        }
     }
     if fam.split && t.role != Role::Enc {
         r.extend([Route::ConvRef, Route::ConvVal, Route::CloneOfConv]);
